@@ -253,6 +253,26 @@ func buildC18(c *C18Case) error {
 			if err != nil {
 				return err
 			}
+		case "dir-into-user", "dir-dangling":
+			// a factory DIRECTORY is a symbolic link: into the user's tree (where a file of the same name as a factory file is
+			// the documented way to override it), or to a target that is gone
+			dir := filepath.Dir(l.Factory)
+			if filepath.Base(dir) == "factory" {
+				continue // (the README directly below factory/: only the two sub-directories are linked)
+			}
+			userDir := filepath.Join("hidi-config/user", filepath.Base(dir))
+			_ = os.MkdirAll(userDir, 0o777)
+			if err := os.WriteFile(filepath.Join(userDir, filepath.Base(l.Factory)), l.Data, 0o666); err != nil {
+				return err
+			}
+			_ = os.RemoveAll(dir)
+			target, _ := filepath.Abs(userDir)
+			if l.Kind == "dir-dangling" {
+				target, _ = filepath.Abs("hidi-config/removed-dir")
+			}
+			if err := os.Symlink(target, dir); err != nil {
+				return err
+			}
 		case "dangling", "dangling-dir":
 			// the factory path is a symbolic link whose target does not exist (any more): into an existing directory of the
 			// user's tree, or into a directory that is gone as well
@@ -531,7 +551,7 @@ func genC18(t *rapid.T) C18Case {
 	}
 	if c.CrashKind == "" && rapid.IntRange(0, 7).Draw(t, "linked") == 0 {
 		f := files[rapid.IntRange(0, len(files)-1).Draw(t, "linkedFactory")]
-		c.Links = append(c.Links, c18Link{Kind: rapid.SampledFrom([]string{"hard", "hard", "sym", "dangling", "dangling-dir"}).Draw(t, "linkKind"), Factory: f.Path,
+		c.Links = append(c.Links, c18Link{Kind: rapid.SampledFrom([]string{"hard", "hard", "sym", "dangling", "dangling-dir", "dir-into-user", "dir-dangling"}).Draw(t, "linkKind"), Factory: f.Path,
 			User: "hidi-config/user/keyboard/my_copy.toml", Data: append([]byte("# my own version\n"), genBytes(t, "linkedData")...)})
 	}
 	if rapid.IntRange(0, 3).Draw(t, "hasHidi") > 0 {
